@@ -8,7 +8,8 @@
    make lock-ordered and atomic accesses race-free. *)
 From Coq Require Import List NArith ZArith Permutation.
 Import ListNotations.
-From V Require Import Export.LockIR Proofs.LockIRProofs.
+From V Require Import Export.LockIR Export.FirstTouch Proofs.LockIRProofs Proofs.LockAtomicProofs
+  Proofs.FirstTouchProofs.
 Local Open Scope N_scope.
 
 (* the static lockset is a sound description of the locks dynamically held:
@@ -33,6 +34,58 @@ Theorem C11_discipline_sound :
         exists b r r' f, In b T /\ run_block b r (th_rest (g0 i)) r' f)) ->
   forall g, reachable g0 g -> ~ race g.
 Proof. exact discipline_sound. Qed.
+
+(* isolation: in every reachable state of guarded threads, while one thread
+   holds a lock in write mode no other thread is about to access a field that
+   lock guards - so a critical section under the write lock acts as one step *)
+Theorem C11_isolation :
+  forall spec (g0 : gstate),
+    (forall i, th_H (g0 i) = [] /\ guarded spec [] (th_rest (g0 i))) ->
+  forall g, reachable g0 g ->
+  forall i j x l f k r, i <> j -> In (x, l, MW) (th_H (g i)) ->
+    th_rest (g j) = EvAcc x f k :: r -> spec f = GLock l -> False.
+Proof. exact write_lock_isolates. Qed.
+
+(* check-then-act: a function the analysis accepts never writes an (object,
+   field) it read or wrote before releasing the guarding lock, unless it has
+   read it again since - in every execution, for every binding of its objects
+   (tracked inside loop-free stretches of work on one selection of objects) *)
+Theorem C11_no_stale_write :
+  forall spec b, stale_violations spec b = [] ->
+  forall r tr r' f, run_block b r tr r' f -> atomic_trace spec tr.
+Proof. exact stale_sound. Qed.
+
+(* lookups-or-creations plus adds on one label set of one metric: with
+   GetDatum's find-and-create in one critical section (one step, by
+   C11_isolation) and an indivisible add, EVERY schedule of any number of
+   goroutines that first-touch the same label set ends with exactly one label
+   value, the index pointing at it, and its value the sum of all increments *)
+Theorem C11_first_touch_no_lost_increment :
+  forall (deltas : list Z) (sched : list nat), deltas <> [] ->
+  let s := run_atomic sched (init deltas) in
+  done_atomic s = true ->
+  lvcount s = 1%nat /\ idx s = Some 0%nat /\ vals s = [zsum deltas] /\ exported s = Some (zsum deltas).
+Proof. exact first_touch_atomic. Qed.
+
+(* lookup under the read lock, creation under the write lock without looking
+   again (the seeded fast path): every access is locked, the lockset checker
+   accepts it, yet the check-then-act analysis flags the index write, a trace
+   of the shape writes from stale knowledge, and a schedule of two goroutines
+   ends with two label values and one of two increments lost *)
+Theorem C11_split_getdatum_refuted :
+  violations mtail_spec getdatum_split_shape = [] /\
+  stale_violations mtail_spec getdatum_split_shape = [5] /\
+  stale_violations mtail_spec getdatum_shape = [] /\
+  stale_violations mtail_spec getdatum_recheck_shape = [] /\
+  (exists tr, run_block getdatum_split_shape (fun _ => 7) tr (fun _ => 7) LFall /\
+              ~ atomic_trace mtail_spec tr) /\
+  (let s := run_split [0; 1; 0; 1; 0; 1]%nat (init [1%Z; 1%Z]) in
+   done_split s = true /\ lvcount s = 2%nat /\ exported s = Some 1%Z /\ zsum [1%Z; 1%Z] = 2%Z).
+Proof.
+  split; [vm_compute; reflexivity|]. split; [vm_compute; reflexivity|].
+  split; [vm_compute; reflexivity|]. split; [vm_compute; reflexivity|].
+  split; [exact split_shape_not_atomic|exact first_touch_split_loses].
+Qed.
 
 (* indivisible atomic adds on one word: every interleaving ends at the sum *)
 Theorem C11_no_lost_increment :
@@ -73,6 +126,10 @@ Proof. vm_compute. reflexivity. Qed.
 
 Print Assumptions C11_lockset_sound.
 Print Assumptions C11_discipline_sound.
+Print Assumptions C11_isolation.
+Print Assumptions C11_no_stale_write.
+Print Assumptions C11_first_touch_no_lost_increment.
+Print Assumptions C11_split_getdatum_refuted.
 Print Assumptions C11_no_lost_increment.
 Print Assumptions C11_export_sees_real_value.
 Print Assumptions C11_gc_race_refuted.
